@@ -1,8 +1,343 @@
 import Grass.Proto
-/- Core `Cli` — stub; replaced by the model (see DESIGN.md §8). -/
+/-
+  C20 core — the command-line tool (crates/lib/src/main.rs).
+
+  Modelled Rust:
+  * main.rs:49-214 `cli()`: the clap (4.x) command.  Non-hidden arguments: `--stdin`,
+    `-I / --load-path <p>` (Append), `-s / --style <expanded|compressed>` (short alias `-t`, values
+    case-insensitive, default `expanded`), `--no-charset`, `--no-unicode`, `-q / --quiet`
+    (all SetTrue), `-v / --version`, `-h / --help`, positionals `[INPUT] [OUTPUT]`
+    (`INPUT` required unless `--stdin`).  Hidden arguments (`--indented`, `--update`,
+    `--no-error-css`, `--no-source-map`, `--source-map-urls`, `--embed-sources`,
+    `--embed-source-map`, `--watch`, `--poll`, `--no-stop-on-error`, `-i / --interactive`,
+    `-c / --no-color`, `--verbose`, `--precision`) are parsed and ignored by `main`; the model
+    answers `unsupported` for them.
+  * main.rs:219-233 flags → `Options`.
+  * main.rs:235-246 the output file is opened (create + truncate) BEFORE anything is compiled.
+  * main.rs:248-268 `INPUT` present → `from_path`, else `--stdin` → `from_string(stdin)`;
+    on `Err(e)`: `eprintln!("{}", e); exit(1)`; on `Ok(css)`: `write_all` to the sink.
+  * compiler/src/logger.rs:20-40 `StdLogger` writes `@warn`/`@debug` to stderr while compiling.
+
+  Strings are `String`; only `=`, `++` and emptiness are used on them.
+-/
 namespace Grass.Cli
 
+inductive Style where
+  | expanded | compressed
+  deriving DecidableEq, Repr, Inhabited
+
+/-- The values of the supported flags after clap has parsed the command line. -/
+structure Flags where
+  stdin     : Bool := false
+  style     : Style := .expanded
+  loadPaths : List String := []
+  noCharset : Bool := false
+  quiet     : Bool := false
+  noUnicode : Bool := false
+  deriving DecidableEq, Repr, Inhabited
+
+/-- The fields of `grass::Options` the tool sets (crates/compiler/src/options.rs). -/
+structure Options where
+  style     : Style
+  loadPaths : List String
+  quiet     : Bool
+  unicodeErrorMessages : Bool
+  allowsCharset : Bool
+  deriving DecidableEq, Repr, Inhabited
+
+/-- main.rs:219-233.  `negationsApplied = true` is the code as it stands; `false` is the variant
+    in which the two negated flags are passed through un-negated (used only for the witness that
+    the theorem below is not vacuous). -/
+def optionsOf (negationsApplied : Bool) (f : Flags) : Options :=
+  { style := f.style
+    loadPaths := f.loadPaths
+    quiet := f.quiet
+    unicodeErrorMessages := if negationsApplied then !f.noUnicode else f.noUnicode
+    allowsCharset := if negationsApplied then !f.noCharset else f.noCharset }
+
+/-! ### the command line (clap) -/
+
+structure Parsed where
+  flags  : Flags
+  input  : Option String       -- positional 1
+  output : Option String       -- positional 2
+  deriving DecidableEq, Repr, Inhabited
+
+inductive ParseResult where
+  | ok (p : Parsed)
+  | usage (why : String)         -- clap prints an error and exits with status 2
+  | unsupported                  -- outside the model (hidden flags, `--`, combined short flags, --help / --version)
+  deriving DecidableEq, Repr, Inhabited
+
+def lower (s : String) : String := String.ofList (s.toList.map Char.toLower)
+
+def styleOfValue (v : String) : Option Style :=
+  if lower v == "expanded" then some .expanded
+  else if lower v == "compressed" then some .compressed
+  else none
+
+/-- One command-line argument as clap classifies it. -/
+inductive Tok where
+  | stdin | noCharset | noUnicode | quiet
+  | style                      -- `--style` / `-s` / `-t`, value in the next argument
+  | styleEq (v : String)       -- `--style=v`
+  | loadPath                   -- `--load-path` / `-I`, value in the next argument
+  | loadPathEq (v : String)    -- `--load-path=v` / `-Iv`
+  | word (s : String)          -- anything not starting with `-` (and the lone `-`)
+  | unknownLong                -- `--something` clap does not know: usage error
+  | outside                    -- hidden flags, `--`, `--help`, `--version`, other short flags: not modelled
+  deriving DecidableEq, Repr, Inhabited
+
+def hiddenLongs : List String :=
+  ["--indented", "--update", "--no-error-css", "--no-source-map", "--source-map-urls", "--embed-sources",
+   "--embed-source-map", "--watch", "--poll", "--no-stop-on-error", "--interactive", "--no-color", "--verbose",
+   "--precision", "--help", "--version"]
+
+/-- main.rs:54-213 read as a classifier of single arguments. -/
+def tokenize (a : String) : Tok :=
+  if a == "--stdin" then .stdin
+  else if a == "--no-charset" then .noCharset
+  else if a == "--no-unicode" then .noUnicode
+  else if a == "--quiet" || a == "-q" then .quiet
+  else if a == "--style" || a == "-s" || a == "-t" then .style
+  else if a.startsWith "--style=" then .styleEq (a.drop 8).toString
+  else if a == "--load-path" || a == "-I" then .loadPath
+  else if a.startsWith "--load-path=" then .loadPathEq (a.drop 12).toString
+  else if a.startsWith "-I" then .loadPathEq (a.drop 2).toString
+  else if a.startsWith "--" then
+    if a == "--" || hiddenLongs.any (fun h => a == h || a.startsWith (h ++ "=")) then .outside else .unknownLong
+  else if a.startsWith "-" && a.length > 1 then .outside
+  else .word a
+
+structure PState where
+  flags : Flags := {}
+  styleSeen : Bool := false
+  positionals : List String := []
+  deriving DecidableEq, Repr, Inhabited
+
+def setStyle (st : PState) (v : String) : Except ParseResult PState :=
+  if st.styleSeen then .error (.usage "style given twice") else
+  match styleOfValue v with
+  | some s => .ok { st with flags := { st.flags with style := s }, styleSeen := true }
+  | none => .error (.usage "invalid style value")
+
+def addLoadPath (st : PState) (v : String) : PState :=
+  { st with flags := { st.flags with loadPaths := st.flags.loadPaths ++ [v] } }
+
+/-- One pass over the arguments (after the program name).  An option that takes a value consumes
+    the next argument, which must be a `word` (clap rejects values that look like flags). -/
+def parseLoop : List Tok → PState → Except ParseResult PState
+  | [], st => .ok st
+  | .stdin :: rest, st =>
+    if st.flags.stdin then .error (.usage "flag given twice")
+    else parseLoop rest { st with flags := { st.flags with stdin := true } }
+  | .noCharset :: rest, st =>
+    if st.flags.noCharset then .error (.usage "flag given twice")
+    else parseLoop rest { st with flags := { st.flags with noCharset := true } }
+  | .noUnicode :: rest, st =>
+    if st.flags.noUnicode then .error (.usage "flag given twice")
+    else parseLoop rest { st with flags := { st.flags with noUnicode := true } }
+  | .quiet :: rest, st =>
+    if st.flags.quiet then .error (.usage "flag given twice")
+    else parseLoop rest { st with flags := { st.flags with quiet := true } }
+  | .style :: .word v :: rest, st =>
+    match setStyle st v with
+    | .ok st' => parseLoop rest st'
+    | .error e => .error e
+  | .style :: [], _ => .error (.usage "missing value")
+  | .style :: _ :: _, _ => .error .unsupported
+  | .styleEq v :: rest, st =>
+    match setStyle st v with
+    | .ok st' => parseLoop rest st'
+    | .error e => .error e
+  | .loadPath :: .word v :: rest, st => parseLoop rest (addLoadPath st v)
+  | .loadPath :: [], _ => .error (.usage "missing value")
+  | .loadPath :: _ :: _, _ => .error .unsupported
+  | .loadPathEq v :: rest, st => parseLoop rest (addLoadPath st v)
+  | .word s :: rest, st => parseLoop rest { st with positionals := st.positionals ++ [s] }
+  | .unknownLong :: _, _ => .error (.usage "unexpected argument")
+  | .outside :: _, _ => .error .unsupported
+
+/-- Which positional is what (main.rs:197-205, 236, 249-262).  `asFound = true`: the first
+    positional is always `INPUT`, also with `--stdin` (then stdin is not read at all).
+    `asFound = false`: with `--stdin` the only positional allowed is the OUTPUT file (dart-sass). -/
+def assignAsFound (f : Flags) : List String → ParseResult
+  | [] => if f.stdin then .ok ⟨f, none, none⟩ else .usage "INPUT required"
+  | [i] => .ok ⟨f, some i, none⟩
+  | [i, o] => .ok ⟨f, some i, some o⟩
+  | _ :: _ :: _ :: _ => .usage "unexpected argument"
+
+def assignSpecStdin (f : Flags) : List String → ParseResult
+  | [] => .ok ⟨f, none, none⟩
+  | [o] => .ok ⟨f, none, some o⟩
+  | _ :: _ :: _ => .usage "unexpected argument"
+
+def assign (asFound : Bool) (f : Flags) (ps : List String) : ParseResult :=
+  if asFound || !f.stdin then assignAsFound f ps else assignSpecStdin f ps
+
+def parseToks (asFound : Bool) (toks : List Tok) : ParseResult :=
+  match parseLoop toks {} with
+  | .error e => e
+  | .ok st => assign asFound st.flags st.positionals
+
+def parseArgv (asFound : Bool) (argv : List String) : ParseResult := parseToks asFound (argv.map tokenize)
+
+/-- The canonical command line the check uses for a set of flags. -/
+def renderToks (f : Flags) (positionals : List String) : List Tok :=
+  (if f.stdin then [.stdin] else []) ++
+  (match f.style with | .expanded => [] | .compressed => [.style, .word "compressed"]) ++
+  f.loadPaths.flatMap (fun p => [.loadPath, .word p]) ++
+  (if f.noCharset then [.noCharset] else []) ++
+  (if f.quiet then [.quiet] else []) ++
+  (if f.noUnicode then [.noUnicode] else []) ++
+  positionals.map .word
+
+def tokStrs : Tok → List String
+  | .stdin => ["--stdin"] | .noCharset => ["--no-charset"] | .noUnicode => ["--no-unicode"] | .quiet => ["--quiet"]
+  | .style => ["--style"] | .styleEq v => ["--style=" ++ v] | .loadPath => ["-I"] | .loadPathEq v => ["--load-path=" ++ v]
+  | .word s => [s] | .unknownLong => ["--unknown-flag"] | .outside => ["--"]
+
+def renderArgv (f : Flags) (positionals : List String) : List String := (renderToks f positionals).flatMap tokStrs
+
+/-! ### what a run does -/
+
+/-- Where the source comes from (main.rs:249-262): a positional `INPUT` wins over `--stdin`. -/
+inductive InputKind where
+  | file | stdin
+  deriving DecidableEq, Repr, Inhabited
+
+def inputKind (p : Parsed) : InputKind := if p.input.isSome then .file else .stdin
+
+inductive OutputKind where
+  | stdout
+  | file            -- `OUTPUT` given and it can be opened for writing
+  | fileUnopenable  -- `OUTPUT` given, `OpenOptions::open` fails (missing directory, is a directory, …)
+  deriving DecidableEq, Repr, Inhabited
+
+/-- What the library call returns, with the bytes `StdLogger` wrote to stderr meanwhile. -/
+inductive LibResult where
+  | ok (css : String) (warnings : String)
+  | err (rendered : String) (warnings : String)    -- `rendered` = `format!("{}", e)`
+  deriving DecidableEq, Repr, Inhabited
+
+def LibResult.warnings : LibResult → String
+  | .ok _ w => w | .err _ w => w
+
+/-- A piece of stderr: exact text, or an operating-system error message (opaque). -/
+inductive Seg where
+  | text (s : String)
+  | osError
+  deriving DecidableEq, Repr, Inhabited
+
+structure Outcome where
+  exitZero : Bool
+  stdout   : String
+  stderr   : List Seg
+  /-- content of the output file after the run; `none` = the tool did not touch/create it -/
+  file     : Option String
+  deriving DecidableEq, Repr, Inhabited
+
+/-- main.rs:235-269.  The flags decide nothing here beyond `Options` (they are already inside
+    `lib`), which is itself part of the claim. -/
+def outcome (_f : Flags) (_i : InputKind) (o : OutputKind) (lib : LibResult) : Outcome :=
+  match o with
+  | .fileUnopenable =>
+    -- `open(path)?` returns before anything is compiled: no warnings, no CSS
+    { exitZero := false, stdout := "", stderr := [.osError], file := none }
+  | .stdout =>
+    match lib with
+    | .ok css w => { exitZero := true, stdout := css, stderr := [.text w], file := none }
+    | .err r w => { exitZero := false, stdout := "", stderr := [.text w, .text (r ++ "\n")], file := none }
+  | .file =>
+    match lib with
+    | .ok css w => { exitZero := true, stdout := "", stderr := [.text w], file := some css }
+    -- the file was created/truncated before compiling and nothing is written to it
+    | .err r w => { exitZero := false, stdout := "", stderr := [.text w, .text (r ++ "\n")], file := some "" }
+
+/-- Text segments of stderr joined (an `osError` segment contributes nothing here). -/
+def stderrText (o : Outcome) : String :=
+  o.stderr.foldl (fun acc s => match s with | .text t => acc ++ t | .osError => acc) ""
+
+/-- P̂: the observed run equals the model's outcome for the library result under `optionsOf flags`. -/
+structure Observed where
+  exitCode : Nat
+  stdout   : String
+  stderr   : String
+  file     : Option String
+  deriving DecidableEq, Repr, Inhabited
+
+def agrees (exp : Outcome) (obs : Observed) : Bool :=
+  (exp.exitZero == (obs.exitCode == 0)) &&
+  exp.stdout == obs.stdout &&
+  exp.file == obs.file &&
+  (if exp.stderr.contains .osError then obs.stderr.startsWith "Error: " else stderrText exp == obs.stderr)
+
+/-! ### driver entry points -/
+open Grass.Proto
+
+def styleStr : Style → String
+  | .expanded => "expanded" | .compressed => "compressed"
+
+def optStr (o : Option String) : String :=
+  match o with | none => "none" | some s => "some:" ++ hexEncode s
+
+def optOfStr (s : String) : Option (Option String) :=
+  if s == "none" then some none
+  else if s.startsWith "some:" then (hexDecode (s.drop 5).toString).map some
+  else none
+
+def argvOfTok (s : String) : Option (List String) :=
+  if s == "-" then some [] else (s.splitOn ",").mapM hexDecode
+
+def tokOfList (l : List String) : String :=
+  if l.isEmpty then "-" else ",".intercalate (l.map hexEncode)
+
+def outputKindOfStr (s : String) : Option OutputKind :=
+  if s == "stdout" then some .stdout else if s == "file" then some .file
+  else if s == "unopenable" then some .fileUnopenable else none
+
+def segStr : Seg → String
+  | .text t => "t:" ++ hexEncode t
+  | .osError => "os"
+
 def handle : List String → String
+  -- parse <argv>: flags, the Options derived from them, input and output positionals
+  | ["parse", argv] =>
+    match argvOfTok argv with
+    | none => "bad-op"
+    | some argv =>
+      match parseArgv true argv with
+      | .unsupported => "unsupported"
+      | .usage why => "usage " ++ hexEncode why
+      | .ok p =>
+        let o := optionsOf true p.flags
+        s!"ok stdin={boolStr p.flags.stdin} input={optStr p.input} output={optStr p.output} " ++
+        s!"kind={if inputKind p == .file then "file" else "stdin"} " ++
+        s!"style={styleStr o.style} quiet={boolStr o.quiet} unicode={boolStr o.unicodeErrorMessages} " ++
+        s!"charset={boolStr o.allowsCharset} load_paths={tokOfList o.loadPaths}"
+  -- render <stdin> <style> <noCharset> <quiet> <noUnicode> <loadPaths> <positionals>: canonical argv
+  | ["render", si, st, nc, q, nu, lps, pos] =>
+    match parseBool? si, styleOfValue st, parseBool? nc, parseBool? q, parseBool? nu, argvOfTok lps, argvOfTok pos with
+    | some si, some st, some nc, some q, some nu, some lps, some pos =>
+      "ok " ++ tokOfList (renderArgv { stdin := si, style := st, loadPaths := lps, noCharset := nc, quiet := q, noUnicode := nu } pos)
+    | _, _, _, _, _, _, _ => "bad-op"
+  -- outcome <stdout|file|unopenable> <ok|err> <css-or-rendered> <warnings>: expected exit class, stdout, stderr segments, file
+  | ["outcome", ok, kind, body, warn] =>
+    match outputKindOfStr ok, hexDecode body, hexDecode warn with
+    | some ok, some body, some warn =>
+      if kind != "ok" && kind != "err" then "bad-op" else
+      let lib := if kind == "ok" then LibResult.ok body warn else LibResult.err body warn
+      let r := outcome {} .file ok lib
+      s!"ok exit0={boolStr r.exitZero} stdout={hexEncode r.stdout} stderr={",".intercalate (r.stderr.map segStr)} file={optStr r.file}"
+    | _, _, _ => "bad-op"
+  -- agrees <stdout|file|unopenable> <ok|err> <body> <warnings> <exit code> <stdout> <stderr> <file>: P̂ on an observed run
+  | ["agrees", ok, kind, body, warn, code, so, se, fl] =>
+    match outputKindOfStr ok, hexDecode body, hexDecode warn, code.toNat?, hexDecode so, hexDecode se, optOfStr fl with
+    | some ok, some body, some warn, some code, some so, some se, some fl =>
+      if kind != "ok" && kind != "err" then "bad-op" else
+      let lib := if kind == "ok" then LibResult.ok body warn else LibResult.err body warn
+      "ok " ++ boolStr (agrees (outcome {} .file ok lib) ⟨code, so, se, fl⟩)
+    | _, _, _, _, _, _, _ => "bad-op"
   | _ => "bad-op"
 
 end Grass.Cli
